@@ -140,6 +140,34 @@ def one_body_limit(rng, spec_fail, kind):
     return 1
 
 
+def ring_system(rng, norb=4, u=2.0):
+    """Hubbard ring with a closed-shell, uniform-density trial: the mean-field-shifted one-body matrix keeps the ring
+    symmetry, i.e. it has exactly degenerate levels (k, -k) - the case in which a derivative taken through an
+    eigen-decomposition with regularised denominators differs from the derivative of the matrix function"""
+    import jax.numpy as jnp
+    from jax import random as jr
+    from ad_afqmc import hamiltonian, propagation, wavefunctions
+    K = np.zeros((norb, norb))
+    for i in range(norb):
+        K[i, (i + 1) % norb] = K[(i + 1) % norb, i] = -1.0
+    chol = np.zeros((norb, norb, norb))
+    for i in range(norb):
+        chol[i, i, i] = np.sqrt(u)
+    w, v = np.linalg.eigh(K)
+    ne = (1, 1)
+    ham = hamiltonian.hamiltonian(norb)
+    ham_data = {"h0": 0.0, "h1": jnp.array([K, K]), "chol": jnp.array(chol.reshape(norb, -1)), "ene0": 0.0}
+    trial = wavefunctions.rhf(norb, ne)
+    wd = {"mo_coeff": jnp.array(v[:, :1])}
+    wd["rdm1"] = jnp.array([v[:, :1] @ v[:, :1].T] * 2)
+    prop = propagation.propagator_restricted(dt=0.05, n_walkers=4)
+    ham_data = ham.build_measurement_intermediates(ham_data, trial, wd)
+    ham_data = ham.build_propagation_intermediates(ham_data, prop, trial, wd)
+    pd = prop.init_prop_data(trial, wd, ham_data)
+    pd["key"] = jr.PRNGKey(rng.randrange(1 << 30))
+    return dict(ham=ham, ham_data=ham_data, trial=trial, wave_data=wd, prop=prop, prop_data=pd)
+
+
 def two_rdm_check(rng, spec_fail):
     """2-RDM variant as driver.afqmc calls it (vjp with respect to the full two-body tensor): the gradient
     contracted with a direction equals the central finite difference along that direction"""
@@ -200,6 +228,18 @@ def run(ctx):
                 desc = {"trial": tk, "walker_type": wt, "nelec": ne, "grid": g, "seed": seed}
                 combos.append(json.dumps([name, tk, g]))
                 evals += derivative_checks(S, smp, name, obs, spec_fail, desc)
+    # degenerate one-body levels (ring): site potential as observable
+    try:
+        from ad_afqmc import sampling as _smp
+        S = ring_system(rng)
+        O = np.zeros((4, 4))
+        O[0, 0] = 1.0
+        O[1, 2] = 0.25          # and a non-symmetric piece
+        evals += derivative_checks(S, _smp.sampler(n_prop_steps=2, n_ene_blocks=2, n_sr_blocks=2, n_blocks=1), "propagate_phaseless_ad_norot",
+                                   jnp.array([O, O]), spec_fail, {"system": "4-site Hubbard ring, uniform closed-shell trial (degenerate one-body levels)", "nelec": (1, 1)})
+        combos.append(json.dumps(["propagate_phaseless_ad_norot", "ring", [2, 2, 2]]))
+    except Exception as ex:
+        spec_fail.append(("propagate_phaseless_ad_norot", "ring (degenerate levels) run executes", {"error": repr(ex)[:300]}))
     for kind in ("rhf", "uhf"):
         try:
             evals += one_body_limit(rng, spec_fail, kind)
@@ -214,7 +254,7 @@ def run(ctx):
     ctx.cov["explanation"] = ("Partial by nature: the AD engine of JAX is outside any model. The Lean theorems (particle-number symmetry of the local energy, one-body "
                               "limit) give closed forms that the run instantiates; everything else compares the implementation with itself (jvp vs central finite "
                               "differences at h = 1e-3, 1e-4, 1e-5 of the same seeded function; vjp contraction vs jvp; primal vs plain sampler) exactly as "
-                              "driver.afqmc calls the entry points, with non-symmetric observable matrices, rhf + restricted and uhf + unrestricted walkers.")
+                              "driver.afqmc calls the entry points, with non-symmetric observable matrices, rhf + restricted and uhf + unrestricted walkers, plus a Hubbard ring whose shifted one-body matrix has exactly degenerate levels.")
     ctx.cov["rule"] = "AD entry points x walker types x block structures (quick: 2 entry points per walker type; thorough: all 4 x 2 structures); one-body limit for rhf and uhf"
     ctx.cov["samples"] = combos[:3]
     ctx.cov["correspondence"] = {"function_evaluations": evals}
